@@ -63,6 +63,7 @@ def expectation_order(lib_rs):
 class DiscExecutor(BlockExecutor):
     exp_locals = frozenset()
     term_local = None
+    await_local = None
 
     def write(self, st, place, v):
         if not st.frames and place.local in self.exp_locals and not place.proj and v[0] == "int":
@@ -73,9 +74,12 @@ class DiscExecutor(BlockExecutor):
         hit = [bb for bb, ls in (self.loop_havoc or {}).items() if ls is locals_]
         r = super().apply_havoc(st, body, locals_)
         for bb in hit:
-            c = st.locals.get(self.term_local)
-            v = st.heap.get(c) if c is not None else None
-            st.events.append(("loop", bb, v[1] if v and v[0] == "bool" else None))
+            vals = []
+            for l in (self.term_local, self.await_local):
+                c = st.locals.get(l)
+                v = st.heap.get(c) if c is not None else None
+                vals.append(v[1] if v and v[0] == "bool" else None)
+            st.events.append(("loop", bb, vals[0], vals[1]))
         return r
 
     def call(self, st, body, t):
@@ -169,6 +173,7 @@ def obligations(name, text, lib_rs, helpers=None):
         pass
     Ex.exp_locals = exp_locals
     Ex.term_local = int(re.search(r"debug is_terminal => _(\d+);", text).group(1)) if re.search(r"debug is_terminal => _(\d+);", text) else None
+    Ex.await_local = int(re.search(r"debug is_awaiting_discoveries => _(\d+);", text).group(1)) if re.search(r"debug is_awaiting_discoveries => _(\d+);", text) else None
     X = explore(name, text, helpers, cls=Ex, precise_loops=True)
     ex, body, outs, base, loops, outer, dbg = X["ex"], X["body"], X["outs"], X["base"], X["loops"], X["outer"], X["dbg"]
     for need in ("is_terminal", "is_awaiting_discoveries"):
@@ -303,6 +308,9 @@ def obligations(name, text, lib_rs, helpers=None):
                     aw = _val_at_end(st, L_await)
                     if aw is None:
                         raise Unsupported(f"{name} check_block: awaiting flag is not a boolean at the end of a property-loop iteration")
+                    hv = next((e[3] for e in evs if e[0] == "loop"), None)
+                    if hv is not None:
+                        must("C02,C01", f"{tagp}: P-await: an iteration never takes the awaiting flag back (a flag set for an earlier property survives)", g, hv, z3.Not(aw))
                     if not discs:
                         must("C02,C01", f"{tagp}: P-await: an iteration that leaves its property without a discovery sets the awaiting flag", g,
                              *( [z3.Not(cks[0][1])] if cks else [] ), z3.Not(aw))
@@ -315,6 +323,14 @@ def obligations(name, text, lib_rs, helpers=None):
                 if not (wbs or pushes or gins or vac or ent):
                     continue
                 n["S"] += 1
+                for k, e in enumerate(evs):
+                    if e[0] in ("gen_insert", "gen_entry", "gen_vacant"):
+                        before = [x for x in evs[:k] if x[0] == "within_boundary"]
+                        if not before:
+                            must("C01,C02", f"{tagp}: S-visited: the visited set is consulted/extended only for a successor that passed the boundary test", g, structural_ok=False)
+                        else:
+                            must("C01,C02", f"{tagp}: S-visited: the visited set is consulted/extended only for a successor that passed the boundary test", g, z3.Not(before[-1][1]))
+                        break
                 if len(wbs) > 1 or len(pushes) > 1:
                     raise Unsupported(f"{name} check_block: a successor-loop iteration with several boundary tests / pushes")
                 for pu in pushes:
